@@ -23,7 +23,8 @@ import nv
 import c14sweep as S
 import c14stmts as T
 
-INF_SAFE = ["zero", "one", "l123", "sabc", "lam", "null"]
+# partners of an infinite stream: no predicate (take-while / filter on an infinite stream may legitimately not end)
+INF_SAFE = ["zero", "one", "l123", "sabc", "null"]
 
 
 def call_items(funcs, tier):
@@ -272,10 +273,22 @@ def run(tier):
                                        "members": info["n"]})
         found.setdefault(key, [0, src, new])[0] += info["n"]
 
-    # one line per finding class, for the record (grouped by callee and outcome in the report)
+    # finding classes grouped by callee and outcome (evidence; one line each with C14_CLASSES=1)
+    grouped = {}
     for key in sorted(found):
         n, src, new = found[key]
-        print("C14-CLASS %s\t%d\t%s\t%s" % ("new" if new else "known", n, key, src))
+        if os.environ.get("C14_CLASSES"):
+            print("C14-CLASS %s\t%d\t%s\t%s" % ("new" if new else "known", n, key, src))
+        parts = key.split(":")
+        callee = ":".join(parts[:2]) if parts[0] == "stmt" else parts[0]
+        i = key.find("panic:")
+        cls = key[i:] if i >= 0 else parts[-1]
+        if ":forced-" in key:
+            cls = "forced:" + cls
+        g = grouped.setdefault((callee, cls), {"callee": callee, "class": cls, "keys": 0, "cases": 0, "example": src,
+                                               "known": not new})
+        g["keys"] += 1
+        g["cases"] += n
 
     n_calls, n_force, n_stmt = len(citems), len(fitems), len(sitems)
     for it in (citems[len(citems) // 3], citems[2 * len(citems) // 3]):
@@ -299,6 +312,7 @@ def run(tier):
         "calls": n_calls, "forcings": n_force, "statements": n_stmt,
         "interpreter_sessions": stats.get("sessions", 0), "isolated_reruns": stats.get("isolated", 0),
         "trace_events": n_ev, "trace_classes": n_classes, "finding_classes": len(found),
+        "findings_by_callee": [grouped[k] for k in sorted(grouped)],
         "states": mc["distinct"], "transitions": mc["generated"], "mc_sessions_replayed": mc["replayed"],
         "traces_validated_against_impl": mc["replayed"] + n_classes,
         "mc_invariants": mc["invariants"],
